@@ -327,7 +327,7 @@ func runC19(r *ev.Run, thorough bool) int {
 	r.Add("forwarding_transitions", int64(st.Transitions))
 	r.Add("forwarding_sends_observed", int64(st.SendsSeen))
 	// concurrent peer-appeared / vector-received / ageing (E3, tracked own-predictability map)
-	sbound, sbudget := 2, 4000
+	sbound, sbudget := 2, 2000
 	if thorough {
 		sbound, sbudget = 3, 200000
 	}
